@@ -22,7 +22,7 @@ From Coq Require Import List Ascii String Bool PrimFloat.
 From Verif Require Import Base.Result Base.Str Base.Sexp Base.PyDict Base.Float Model.Tokenizer Model.Types Model.Domain
   Model.State Model.Trajectory Spec.Pddl Spec.State
   Proofs.C14_Text Proofs.C14_Spec Proofs.C14_Eq Proofs.C14_Main Proofs.C14_Serialize Proofs.C14_Examples
-  Proofs.C10_Export Proofs.C10_State Proofs.C10_Main Proofs.C10_Objects Proofs.C10_Examples.
+  Proofs.C14_Sorted Proofs.C10_Export Proofs.C10_State Proofs.C10_Main Proofs.C10_Objects Proofs.C10_Sorted Proofs.C10_Examples.
 Import ListNotations.
 
 (* the full statement the property asks for: no restriction on the fluents' arguments *)
@@ -40,11 +40,14 @@ Definition C10_roundtrip_full_statement : Prop :=
       parse_trajectory dom parse_num problem agents false tree = Ok O /\
       Forall2 (fun t c => State_same (den (oc_next c)) (den (t_post t))) (t0 :: ts) (ob_components O).
 
-(* the exported text is read by the library's reader (C11) as the token tree of the trajectory *)
+(* the exported text is read by the library's reader (C11) as the token tree of the trajectory; State.serialize prints
+   the facts of every predicate group in sorted order (3ad2e15), so the tree is the one of the trajectory with every group
+   sorted ([sort_triplet]: Proofs/C10_Sorted.v; sorting permutes the groups and changes nothing the statements speak of) *)
 Theorem C10_export_parses : forall num_text m t0 ts,
   state_ok (t_pre t0) = true -> nums_clean num_text (t_pre t0) -> Forall (step_text_ok num_text) (t0 :: ts) ->
-  exists text, export_text num_text (t0 :: ts) = Ok text /\ parse m (s2t text) = Ok (traj_sexp num_text t0 ts).
-Proof. exact parse_export. Qed.
+  exists text, export_text num_text (t0 :: ts) = Ok text /\
+               parse m (s2t text) = Ok (traj_sexp num_text (sort_triplet t0) (map sort_triplet ts)).
+Proof. exact parse_export_sorted. Qed.
 
 (* parse_state on the token tree of a serialized state *)
 Theorem C10_state_roundtrip : forall dom num_text parse_num problem s,
@@ -70,16 +73,16 @@ Theorem C10_roundtrip : forall dom num_text parse_num problem agents m t0 ts str
                         State_same (den (oc_next c)) (den (t_post t))) (t0 :: ts) (ob_components O) /\
     obs_chain num_text (ob_components O) /\
     (forall objs, problem = Some objs -> ob_objects O = objs).
-Proof. exact roundtrip. Qed.
+Proof. exact roundtrip_sorted. Qed.
 
 (* objects deduced from the first state: the observation's table names every object of the first state (the tree is the
    one C10_export_parses / C10_roundtrip speak about) *)
 Theorem C10_roundtrip_deduced_objects : forall dom num_text parse_num agents strict t0 ts O,
   state_ok (t_pre t0) = true -> parseable dom None (t_pre t0) ->
-  parse_trajectory dom parse_num None agents strict (traj_sexp num_text t0 ts) = Ok O ->
+  parse_trajectory dom parse_num None agents strict (traj_sexp num_text (sort_triplet t0) (map sort_triplet ts)) = Ok O ->
   (forall a o, In a (den_facts (t_pre t0)) -> In o (snd a) -> dmem (ob_objects O) o = true) /\
   (forall a o, In a (map fst (den_fluents (t_pre t0))) -> In o (snd a) -> dmem (ob_objects O) o = true).
-Proof. exact roundtrip_deduced_objects. Qed.
+Proof. intros dom num_text parse_num agents strict t0 ts O. exact (roundtrip_deduced_objects_sorted dom num_text parse_num agents strict t0 ts O). Qed.
 
 (* D07: with a repeated fluent argument the parsed states are not the exported ones *)
 Theorem C10_roundtrip_refuted :
